@@ -58,17 +58,19 @@ class C07:
                        "(rl4co ships no JSSP writer)"]
     assumptions = ["CPU float32 kernels; processing times are integers, so clock arithmetic is exact",
                    "instances come from the library's generators at small sizes (2-4 jobs x 2-3 machines, 8% at "
-                   "5-10 jobs); FFSP runs with the identity machine table (no multi-start augmentation)",
+                   "5-10 jobs); FFSP multi-start replica p is expected to visit the machines of a stage in the order of the "
+                   "p-th lexicographic permutation (IndexTables.machine_table)",
                    "mask-vs-dispatcher differences that only hide a feasible action, and clock differences, are "
                    "reported under their own monitors (mask_hides, clock) because they belong to the mechanisms "
                    "the property names, although a hidden action alone does not make a schedule invalid"]
     required_probes = ["row_padded", "unequal_finish", "padded_ops", "unequal_ops_in_batch", "wait_taken",
                        "clock_advanced_twice_in_one_step", "snapshot_restored", "env_restarted",
                        "alternate_done", "file_instances", "listdir_shuffled", "ffsp_slot_skipped",
-                       "mask_no_ops_on", "mask_no_ops_off"]
-    excluded = [{"what": "FFSP multi-start machine-table augmentation (select_start_nodes)",
-                 "why": "stretch goal; the reference supports a machine permutation but the scenario does not "
-                        "drive batchified FFSP states"},
+                       "ffsp_multistart", "mask_no_ops_on", "mask_no_ops_off", "final_only_run"]
+    excluded = [{"what": "FFSPEnv.select_start_nodes",
+                 "why": "calls IndexTables.augment_machine_tables, which does not exist (AttributeError); the "
+                        "multi-start protocol actually used by MultiStageFFSPPolicy (batchify + env.pre_step) "
+                        "is exercised instead"},
                 {"what": "FJSP stepwise_reward / check_mask options", "why": "not part of the property"}]
     CANARIES = {}
 
@@ -87,13 +89,22 @@ class C07:
                 break
             x -= w
         small = True if tier != "thorough" else rc.random() < 0.75
-        cfg = E.sample_cfg(name, rc, tier, small=small)
+        cfg = _vary(E.sample_cfg(name, rc, tier, small=small), rc)
         env = E.make_env(cfg)
         B = rc.choice([1, 2, 2, 3, 3, 4, 5])
         rows = E.gen_rows(env, cfg, B, st.torch_seed("instances"))
         strategies = [rc.choice(STRATEGIES) for _ in range(B)]
         plan = {"cfg": cfg, "instances": [E.enc_row(r) for r in rows], "strategies": strategies,
-                "source": "generator", "perturb": []}
+                "source": "generator", "perturb": [],
+                # one run in five leaves the tick oracle off so that a state the dispatcher would stop at
+                # is driven on to its final schedule and judged by the validator alone
+                "tick_oracle": rc.random() < 0.8}
+        if name == "ffsp" and cfg["gen"]["num_machine"] >= 2 and rc.random() < 0.3:
+            # multi-start: the batch is replicated k times after reset, replica p visits the machines of
+            # every stage in the order of the p-th permutation (MultiStageFFSPPolicy.pre_forward protocol)
+            k = rc.randint(2, min(math.factorial(cfg["gen"]["num_machine"]), max(2, 12 // B)))
+            plan["multistart"] = k
+            plan["strategies"] = [rc.choice(STRATEGIES) for _ in range(B * k)]
         if name in JOBSHOP and rc.random() < 0.25:
             plan["source"] = "file"
             plan["listdir_seed"] = rc.randrange(1 << 30) if rc.random() < 0.6 else None
@@ -104,7 +115,7 @@ class C07:
                 if kind == "alternate":
                     b = rc.randint(1, 3)
                     if name in JOBSHOP:
-                        acfg = E.sample_cfg(name, rc, tier)
+                        acfg = _vary(E.sample_cfg(name, rc, tier), rc)
                         aenv = E.make_env(acfg)
                     else:
                         acfg, aenv = cfg, env
@@ -133,7 +144,12 @@ class C07:
             p = copy.deepcopy(plan)
             p["source"] = "generator"
             yield p
-        if len(plan["instances"]) > 1:
+        if plan.get("multistart"):
+            p = copy.deepcopy(plan)
+            del p["multistart"]
+            p["strategies"] = p["strategies"][: len(p["instances"])]
+            yield p
+        elif len(plan["instances"]) > 1:
             for ri in range(len(plan["instances"])):
                 p = copy.deepcopy(plan)
                 del p["instances"][ri]
@@ -166,6 +182,28 @@ class C07:
         finally:
             if tmp is not None:
                 shutil.rmtree(tmp, ignore_errors=True)
+
+
+def _vary(cfg, rc):
+    """C07-specific widening of envs.sample_cfg: degenerate shapes (one job, one machine), restricted
+    eligibility, tiny processing-time ranges (many simultaneous releases)."""
+    name, g = cfg["env"], cfg["gen"]
+    if name in JOBSHOP:
+        x = rc.random()
+        if x < 0.08:
+            g["num_jobs"] = 1
+        elif x < 0.16:
+            g["num_machines"] = 1
+        if rc.random() < 0.2:
+            g["max_processing_time"] = rc.choice([2, 3])
+        if name == "fjsp" and rc.random() < 0.3:
+            g["max_eligible_ma_per_op"] = rc.randint(1, g["num_machines"])
+    elif name == "ffsp":
+        if rc.random() < 0.1:
+            g["num_job"] = 1
+        if rc.random() < 0.15:
+            g["min_time"], g["max_time"] = 1, 2  # all durations 1
+    return cfg
 
 
 # ------------------------------------------------------------------------------------------------
@@ -420,10 +458,28 @@ def _episode(run, env, cfg, rows, plan):
         run.probe("mask_no_ops_on" if refs[0].mask_no_ops else "mask_no_ops_off")
     with run.guard(name, "reset", phase="episode", B=B):
         td = E.reset(env, cfg, rows)
+    k = int(plan.get("multistart") or 0) if name == "ffsp" else 0
+    if k > 1:
+        import itertools
+
+        from rl4co.utils.ops import batchify
+
+        with run.guard(name, "batchify + pre_step (multi-start)", phase="episode", B=B, starts=k):
+            td = batchify(td, k)
+            td = env.pre_step(td)
+        perms = list(itertools.permutations(range(refs[0].M)))
+        refs = [R.make_ref(name, rows[r % B], dict(cfg, machine_perm=list(perms[r // B])))
+                for r in range(B * k)]
+        run.fault("replicate", k)
+        run.probe("ffsp_multistart")
+        run.nontrivial = True
+        B = B * k
     pad_init = None
     if name in JOBSHOP:
         pad_init = (td["start_times"].tolist(), td["finish_times"].tolist())
     cap = 2 * max(r.step_bound() for r in refs) + 8
+    tick_oracle = bool(plan.get("tick_oracle", True))
+    run.probe("tick_oracle_on" if tick_oracle else "final_only_run")
     perturbs = [dict(p) for p in plan["perturb"] if p["kind"] != "alternate"]
     hist = []
     snap = None
@@ -459,7 +515,8 @@ def _episode(run, env, cfg, rows, plan):
                     run.probe("env_restarted")
                     run.nontrivial = True
         # ---- tick oracle --------------------------------------------------------------------------
-        _check_tick(run, name, cfg, td, refs, t, "episode")
+        if tick_oracle:
+            _check_tick(run, name, cfg, td, refs, t, "episode")
         if all(done):
             break
         if t > cap:
@@ -485,8 +542,8 @@ def _episode(run, env, cfg, rows, plan):
                     run.probe("wait_taken")
             acts.append(a)
         run.log.add("tick", t, acts, [D.mask_bits(td["action_mask"][i]) for i in range(B)],
-                    [r.time for r in refs])
-        for i, r in enumerate(refs):
+                    [r.time for r in refs] if tick_oracle else None)
+        for i, r in enumerate(refs if tick_oracle else []):
             before = getattr(r, "advances", None)
             skipped = getattr(r, "slots_skipped", None)
             try:
@@ -506,12 +563,12 @@ def _episode(run, env, cfg, rows, plan):
     if len({x for x in finish_tick}) > 1:
         run.probe("unequal_finish")
         run.nontrivial = True
-    rewards = _final_checks(run, env, cfg, td, refs, hist, pad_init, "episode")
+    rewards = _final_checks(run, env, cfg, td, refs, hist, pad_init, "episode", ledger=tick_oracle)
     run.episode_summary = {"T": t, "finish_tick": finish_tick, "rewards": rewards,
                            "actions": [[h[i] for h in hist] for i in range(B)][:2]}
-    for r in refs:
-        if name in JOBSHOP or name == "ffsp":
-            run.stats["time_units"] += int(r.makespan())
+    if name in JOBSHOP or name == "ffsp":
+        for x in rewards:  # validated above: -reward is the latest completion time of the row
+            run.stats["time_units"] += int(-x)
     # ---- snapshot: restore and re-drive the same suffix --------------------------------------------
     if snap is not None:
         if _fingerprint(snap["td"]) != snap["fp"]:
@@ -528,13 +585,13 @@ def _episode(run, env, cfg, rows, plan):
                 _fail(run, name, "snapshot", f"final {key} after restoring the tick-{snap['t']} snapshot and "
                       f"re-driving the same actions differs from the first pass (rows {rows_diff})",
                       "snapshot_redrive", key=key, rows=rows_diff, tick=snap["t"], cfg=cfg)
-        rewards2 = _final_checks(run, env, cfg, td2, refs, hist, pad_init, "restore")
+        rewards2 = _final_checks(run, env, cfg, td2, refs, hist, pad_init, "restore", ledger=tick_oracle)
         if rewards2 != rewards:
             _fail(run, name, "snapshot", f"rewards after restore {rewards2} != first pass {rewards}",
                   "snapshot_reward", tick=snap["t"], cfg=cfg)
 
 
-def _final_checks(run, env, cfg, td, refs, hist, pad_init, phase):
+def _final_checks(run, env, cfg, td, refs, hist, pad_init, phase, ledger=True):
     name = cfg["env"]
     B = len(refs)
     T = len(hist)
@@ -558,7 +615,7 @@ def _final_checks(run, env, cfg, td, refs, hist, pad_init, phase):
                 _fail(run, name, mon, f"row {i}: final schedule breaks `{c}`: {d}", c, row=i,
                       problems=[[x, y] for x, y in probs[:6]], n_padded=sum(ref.pad),
                       start_times=S, finish_times=F, **common)
-            led = ref.compare_schedule(S, F, A)
+            led = ref.compare_schedule(S, F, A) if ledger else []
             if led:
                 _fail(run, name, "ledger", f"row {i}: final schedule differs from the dispatcher's ledger of the "
                       f"same actions: {led[0][1]}", "ledger", row=i, problems=[[x, y] for x, y in led[:6]],
@@ -571,7 +628,7 @@ def _final_checks(run, env, cfg, td, refs, hist, pad_init, phase):
                 mon = "makespan" if c == "makespan" else "validator"
                 _fail(run, name, mon, f"row {i}: final schedule breaks `{c}`: {d}", c, row=i,
                       problems=[[x, y] for x, y in probs[:6]], schedule=X, **common)
-            led = ref.compare_schedule(X)
+            led = ref.compare_schedule(X) if ledger else []
             if led:
                 _fail(run, name, "ledger", f"row {i}: final schedule differs from the reference ledger: "
                       f"{led[0][1]}", "ledger", row=i, problems=[[x, y] for x, y in led[:6]], **common)
@@ -755,6 +812,16 @@ def _canary_ffsp_reward_from_start():
     return _ffsp_step_mutant(reward_from_start=True)
 
 
+def _canary_ffsp_tables_bs_off_by_one():
+    """IndexTables.bs one too large: multi-start replicas read the wrong machine permutation."""
+    from rl4co.envs.scheduling.ffsp.env import IndexTables
+
+    def mutant(self, bs):
+        self.bs = bs + 1
+
+    return _swap(IndexTables, "set_bs", mutant)
+
+
 def _canary_smtwtp_dummy_offered():
     """SMTWTP reset leaves the dummy start node selectable."""
     from rl4co.envs.scheduling.smtwtp.env import SMTWTPEnv
@@ -792,6 +859,7 @@ C07.CANARIES = {
     "ffsp_job_wait_not_set": _canary_ffsp_job_wait_not_set,
     "ffsp_machine_wait_not_set": _canary_ffsp_machine_wait_not_set,
     "ffsp_reward_from_start": _canary_ffsp_reward_from_start,
+    "ffsp_tables_bs_off_by_one": _canary_ffsp_tables_bs_off_by_one,
     "smtwtp_dummy_offered": _canary_smtwtp_dummy_offered,
     "smtwtp_tardiness_unclamped": _canary_smtwtp_tardiness_unclamped,
 }
